@@ -252,6 +252,18 @@ func runC16(e *Env, p *Plan) {
 			continue
 		}
 		if rerr != nil {
+			t.mu.Lock()
+			lastConn := ""
+			if len(t.Conns) > 0 {
+				lastConn = t.Conns[len(t.Conns)-1]
+			}
+			t.mu.Unlock()
+			if lastConn != "" && lastConn != "c"+itoa(w.Clients[op.Client].FirstPipe) && t.Panic == "" {
+				// its server handler ran on a connection made after the (only) fault: that
+				// link is healthy for good, the reverse calls made from there have no excuse
+				e.Violate("C16.reverse-identity", "tok=%d on client %s: the server handler ran on the re-established, healthy connection %s, yet the call failed: %v", t.ID, cp.Name, lastConn, rerr)
+				continue
+			}
 			if t.Panic == "" && strings.Contains(rerr.Error(), "panic") {
 				e.Violate("C16.reverse-identity", "tok=%d on client %s failed with a panic error although none of its handlers panics - another call's failure reached it: %v", t.ID, cp.Name, rerr)
 				continue
